@@ -3,6 +3,7 @@ CONSTANTS
   CommitSeqBeforeWrite = FALSE
   FreezeBeforeMetaFlush = FALSE
   ExpireOnConsumed = FALSE
+  Writable = FALSE
 SPECIFICATION TraceSpec
 INVARIANTS SeriesIndexed AckNotAhead NoLoss
 CONSTRAINT HighWater
